@@ -377,9 +377,7 @@ func runC19Case(c *Ctx, idx int) *CaseResult {
 		cr.NonTrivial = append(cr.NonTrivial, fmt.Sprintf("%s|%s|%s|%s|%s|%s", ka, ra.RatString(), kb, rb.RatString(), left, right))
 	}
 	cr.set("grl_kind_pairs", fmt.Sprintf("%s,%s", ka, kb))
-	if idx == 0 {
-		cr.Sample = map[string]interface{}{"grl": text.String(), "matched": res.Matched}
-	}
+	cr.Sample = map[string]interface{}{"left": fmt.Sprintf("%s = %s(%s)", left, ka, ra.RatString()), "right": fmt.Sprintf("%s = %s(%s)", right, kb, rb.RatString()), "grl": text.String(), "matched_rules": res.Matched}
 	return cr
 }
 
